@@ -389,13 +389,28 @@ func (r *Runtime) arrayproto_sort(call FunctionCall) Value {
 	}
 
 	var s sortable
-	if r.checkStdArrayObj(o) != nil {
-		s = o.self
-	} else if _, ok := o.self.(reflectValueWrapper); ok {
+	if _, ok := o.self.(reflectValueWrapper); ok {
 		s = o.self
 	}
 
-	if s != nil {
+	if arr := r.checkStdArrayObj(o); arr != nil {
+		// sort a copy: the comparator may modify (e.g. truncate) the array
+		a := make([]Value, len(arr.values))
+		copy(a, arr.values)
+		ctx := arraySortCtx{
+			obj:     r.newArrayValues(a).self,
+			compare: compareFn,
+		}
+
+		sort.Stable(&ctx)
+		if r.checkStdArrayObj(o) == arr && len(arr.values) == len(a) {
+			copy(arr.values, a)
+		} else {
+			for i, v := range a {
+				o.self.setOwnIdx(valueInt(i), v, true)
+			}
+		}
+	} else if s != nil {
 		ctx := arraySortCtx{
 			obj:     s,
 			compare: compareFn,
